@@ -6,7 +6,11 @@ Model: `SafeNet/Model/Lifecycle.lean` (`World = Registry × OS`, every operation
 `ServiceControl`/`RpcActions` calls with a fault oracle consumed call by call), tied to the Rust by the
 differential correspondence run (`harness/hmgr/src/bin/lifecycle.rs` vs `drv_lifecycle`).
 
-All theorems quantify over operation lists of any length, each operation carrying an arbitrary fault list.
+All theorems quantify over operation lists of any length, each operation carrying an arbitrary fault list; a fault
+is either a call that fails without effect or a call that has its effect and then reports failure (`Fault.failAfter`).
+Operations: add, start, stop, remove, upgrade, the partial refresh every `antctl` command runs first, the full refresh
+of `antctl status` (through the node RPC, which can succeed or fail at any call), and the daemon's restart
+(`restart_node_service`, with or without retained peer id).
 `Op.kill` (a process dying behind the manager's back) is an environment event, not a fault of a call; it is part
 of the histories everywhere except in `running_has_process`, where the clause is about what the manager records.
 
@@ -19,7 +23,7 @@ refuted on concrete histories, and proved under the named hypothesis "no unrecor
 namespace SafeNet.Props.C19
 open SafeNet.Lifecycle
 
-theorem onSvc_some {w : World} {i : Nat} {s : Svc} (faults : List Bool) (f : Svc → OS → Fx → Svc × OS × Fx × Res)
+theorem onSvc_some {w : World} {i : Nat} {s : Svc} (faults : List Fault) (f : Svc → OS → Fx → Svc × OS × Fx × Res)
     (h : w.reg[i]? = some s) :
     onSvc w i faults f =
       (⟨w.reg.set i (f s w.os ⟨faults, 0⟩).1, (f s w.os ⟨faults, 0⟩).2.1⟩, (f s w.os ⟨faults, 0⟩).2.2.2,
@@ -36,44 +40,104 @@ theorem getElem?_set_self' {reg : List Svc} {i : Nat} {s s' : Svc} (h : reg[i]? 
 
 /-! ## 1. A service recorded Running has a live process with the recorded pid -/
 
-/-- After any history of manager operations (any faults), every entry recorded Running has a live process of that
-service whose pid is the recorded one. -/
+/-- After any history of manager operations — add, start, stop, remove, upgrade, partial and full refresh (successful
+or failing at any RPC call), the daemon's restart with or without retained peer id — under any faults, where a faulted
+call either has no effect or HAS ITS EFFECT AND THEN REPORTS FAILURE (`Fault.failAfter`: `stop` killed the process,
+`start` launched it, `uninstall`/`install` changed the definition), every entry recorded Running has a live process of
+that service whose pid is the recorded one. (`ServiceManager::stop` looks the process up again after a failed
+`service_control.stop` — flag `stopFailChecksProcess`, regenerated from lib.rs; without that a `stop` that kills and
+then reports failure left Running + the pid of a dead process: fixed.) Only events that are no calls of the manager at
+all are excluded: `kill` / `restartOutside`, for which see `refresh_reestablishes`. -/
 theorem running_has_process (ops : List Op) (hk : ∀ op ∈ ops, op.isKill = false)
     (s : Svc) (hs : s ∈ (run World.init ops).reg) (hr : s.status = .running) :
     ∃ p ∈ (run World.init ops).os.procs, p.svc = s.number ∧ s.pid = some p.pid :=
   run_good World.init ops hk inv_init good_init s hs hr
 
-/-- With processes dying behind the manager's back anywhere in the history, a `refresh` re-establishes the clause
-for every service. -/
-theorem refresh_reestablishes (ops : List Op) (s : Svc)
-    (hs : s ∈ (step (run World.init ops) .refresh).reg) (hr : s.status = .running) :
-    ∃ p ∈ (step (run World.init ops) .refresh).os.procs, p.svc = s.number ∧ s.pid = some p.pid :=
-  (refresh_spec _ (run_inv World.init ops inv_init)).2.1 s hs hr
+theorem svcRefresh_refreshed (os : OS) (s : Svc) : Refreshed os s (svcRefresh os s) := by
+  cases hl : os.lookup s.number with
+  | none => exact Or.inl ⟨hl, rfl⟩
+  | some p => exact Or.inr ⟨p, hl, by simp [svcRefresh, hl], by simp [svcRefresh, hl], by simp [svcRefresh, hl]⟩
+
+/-- A refresh that went through (the partial one always does; the full one if no RPC call failed and, with `--fail`,
+every service is running) leaves the OS alone and relates every entry, index by index, to the entry it refreshed. -/
+theorem refresh_step_get (w : World) (op : Op) (hop : op.isRefresh = true) (hok : (result w op).failed = false) (k : Nat) :
+    (step w op).os = w.os ∧
+    (((step w op).reg[k]? = none ∧ w.reg[k]? = none) ∨
+      ∃ s s', w.reg[k]? = some s ∧ (step w op).reg[k]? = some s' ∧ Refreshed w.os s s') := by
+  cases op with
+  | refresh =>
+    refine ⟨rfl, ?_⟩
+    simp only [step, exec, List.getElem?_map]
+    cases h : w.reg[k]? with
+    | none => left; exact ⟨rfl, rfl⟩
+    | some s => right; exact ⟨s, _, rfl, rfl, svcRefresh_refreshed _ _⟩
+  | refreshFull fail faults =>
+    have hg := refreshFull_get w.os w.reg ⟨faults, 0⟩ k
+    simp only [step, result, exec] at hok ⊢
+    rcases h : refreshFull w.os w.reg ⟨faults, 0⟩ with ⟨reg, fx, e⟩
+    rw [h] at hg
+    cases e with
+    | some e => simp [h, Res.err] at hok
+    | none =>
+      refine ⟨rfl, ?_⟩
+      rcases hg with hg | ⟨s, s', g1, g2, _, g4⟩
+      · left; exact hg
+      · right; exact ⟨s, s', g1, g2, g4 rfl⟩
+  | add _ _ _ _ _ _ _ => simp [Op.isRefresh] at hop
+  | start _ _ _ => simp [Op.isRefresh] at hop
+  | stop _ _ => simp [Op.isRefresh] at hop
+  | remove _ _ _ => simp [Op.isRefresh] at hop
+  | upgrade _ _ _ _ _ _ => simp [Op.isRefresh] at hop
+  | drestart _ _ _ => simp [Op.isRefresh] at hop
+  | restartOutside _ => simp [Op.isRefresh] at hop
+  | kill _ => simp [Op.isRefresh] at hop
+  | flaky _ _ => simp [Op.isRefresh] at hop
+  | saveload => simp [Op.isRefresh] at hop
+
+theorem refresh_step_mem (w : World) (op : Op) (hop : op.isRefresh = true) (hok : (result w op).failed = false)
+    (s' : Svc) (hs : s' ∈ (step w op).reg) : (step w op).os = w.os ∧ ∃ s ∈ w.reg, Refreshed w.os s s' := by
+  obtain ⟨k, hk⟩ := List.mem_iff_getElem?.mp hs
+  obtain ⟨ho, hg⟩ := refresh_step_get w op hop hok k
+  refine ⟨ho, ?_⟩
+  rcases hg with ⟨h1, _⟩ | ⟨s, t, h1, h2, h3⟩
+  · rw [h1] at hk; cases hk
+  · rw [h2] at hk; cases hk
+    exact ⟨s, List.mem_of_getElem? h1, h3⟩
+
+/-- With processes dying or being restarted behind the manager's back anywhere in the history, a refresh that went
+through — the partial one, or the full one of `antctl status` with all its RPC calls answered — re-establishes the
+clause for every service. -/
+theorem refresh_reestablishes (ops : List Op) (op : Op) (hop : op.isRefresh = true)
+    (hok : (result (run World.init ops) op).failed = false) (s : Svc)
+    (hs : s ∈ (step (run World.init ops) op).reg) (hr : s.status = .running) :
+    ∃ p ∈ (step (run World.init ops) op).os.procs, p.svc = s.number ∧ s.pid = some p.pid := by
+  obtain ⟨ho, t, _, ht⟩ := refresh_step_mem _ op hop hok s hs
+  rw [ho]
+  exact refreshed_good ht hr
 
 /-- **After a refresh every service recorded Running carries the pid the OS reports** for its binary — from ANY
 state, in particular when a running service was restarted under a new pid behind the manager's back
 (`Op.restartOutside`) or died (`Op.kill`): the partial refresh every `antctl` command runs first is what corrects a
-stale pid (`ServiceManager::start` returns early for a service recorded Running whose process is alive). -/
-theorem refresh_records_os_pid (w : World) (s : Svc) (hs : s ∈ (step w .refresh).reg) (hr : s.status = .running) :
-    ∃ p, (step w .refresh).os.lookup s.number = some p ∧ s.pid = some p.pid := by
-  simp only [step, exec] at hs ⊢
-  obtain ⟨t, _, rfl⟩ := List.mem_map.mp hs
-  rw [svcRefresh_number]
-  unfold svcRefresh at hr ⊢
-  split
-  · rename_i p hp; exact ⟨p, hp, rfl⟩
-  · rename_i hl
-    rw [hl] at hr
-    dsimp only at hr
-    split at hr
-    · rename_i h; rw [h] at hr; cases hr
-    · rename_i h; rw [h] at hr; cases hr
-    · simp [onStop] at hr
+stale pid (`ServiceManager::start` returns early for a service recorded Running whose process is alive); a successful
+full refresh does the same. -/
+theorem refresh_records_os_pid (w : World) (op : Op) (hop : op.isRefresh = true) (hok : (result w op).failed = false)
+    (s : Svc) (hs : s ∈ (step w op).reg) (hr : s.status = .running) :
+    ∃ p, (step w op).os.lookup s.number = some p ∧ s.pid = some p.pid := by
+  obtain ⟨ho, t, _, ht⟩ := refresh_step_mem w op hop hok s hs
+  rw [ho]
+  exact refreshed_os_pid ht hr
 
 /-- ... and conversely a refresh records every live process of a recorded service: status Running with its pid. -/
-theorem refresh_records_live (w : World) (s : Svc) (_hs : s ∈ w.reg) (p : Proc) (hp : w.os.lookup s.number = some p) :
-    (svcRefresh w.os s).status = .running ∧ (svcRefresh w.os s).pid = some p.pid := by
-  simp [svcRefresh, hp]
+theorem refresh_records_live (w : World) (op : Op) (hop : op.isRefresh = true) (hok : (result w op).failed = false)
+    (k : Nat) (s : Svc) (hs : w.reg[k]? = some s) (p : Proc) (hp : w.os.lookup s.number = some p) :
+    ∃ s', (step w op).reg[k]? = some s' ∧ s'.number = s.number ∧ s'.status = .running ∧ s'.pid = some p.pid := by
+  rcases (refresh_step_get w op hop hok k).2 with ⟨_, h2⟩ | ⟨t, s', h1, h2, h3⟩
+  · rw [hs] at h2; cases h2
+  · rw [hs] at h1; cases h1
+    rcases h3 with ⟨hl, _⟩ | ⟨q, hq, g1, g2, g3⟩
+    · rw [hp] at hl; cases hl
+    · rw [hp] at hq; cases hq
+      exact ⟨s', h2, g1, g2, g3⟩
 
 /-- A pid is recorded only together with Running (used by the stop/remove clause). -/
 theorem pid_only_when_running (ops : List Op) (s : Svc) (hs : s ∈ (run World.init ops).reg)
@@ -98,12 +162,12 @@ def StopRemoveLeaveNothing : Prop :=
 def NoOrphan (w : World) (s : Svc) : Prop := s.status ≠ .running → NoProc w.os s.number
 
 /-- History of K-s-orphan: the `node_info` RPC fails after the process was launched. -/
-def orphanHistory : List Op := [.add 1 none none none false 1 [], .start 0 false [false, true]]
+def orphanHistory : List Op := [.add 1 none none none false 1 [], .start 0 false [.ok, .fail]]
 
 theorem stop_remove_leave_nothing_witness : ¬ StopRemoveLeaveNothing := by
   intro h
-  have h1 := (h orphanHistory (.stop 0 []) 0 ⟨1, .added, none, none, none, 30000, 1, none⟩ rfl (by decide) (by decide)).1
-  exact h1 ⟨100, 1, 40100⟩ (by decide) rfl
+  have h1 := (h orphanHistory (.stop 0 []) 0 ⟨1, .added, none, none, none, 30000, 1, none, none, none⟩ rfl (by decide) (by decide)).1
+  exact h1 ⟨100, 1, 40100, 30000⟩ (by decide) rfl
 
 theorem stop_remove_leave_nothing_partial (ops : List Op) (op : Op) (i : Nat) (s : Svc)
     (hop : isStopOrRemove i op = true) (hget : (run World.init ops).reg[i]? = some s)
@@ -118,12 +182,12 @@ theorem stop_remove_leave_nothing_partial (ops : List Op) (op : Op) (i : Nat) (s
     subst hij
     simp only [step, result, exec, onSvc_some faults svcStop hget] at hok ⊢
     refine ⟨?_, _, getElem?_set_self' hget, ?_⟩
-    · rcases svcStop_cases s w.os ⟨faults, 0⟩ with ⟨_, h2, h3⟩ | ⟨_, _, _, h3⟩
+    · rcases svcStop_cases s w.os ⟨faults, 0⟩ with ⟨_, h2, h3⟩ | ⟨_, _, h3⟩
       · rw [h2]; exact hno (h3 hok)
       · rcases h3 with ⟨h3, h4⟩ | h3
         · rw [h3]; exact h4
         · exact (osStop_spec h3).2.2.2.1
-    · rcases svcStop_cases s w.os ⟨faults, 0⟩ with ⟨h1, _, h3⟩ | ⟨_, h1, _, _⟩
+    · rcases svcStop_cases s w.os ⟨faults, 0⟩ with ⟨h1, _, h3⟩ | ⟨_, h1, _⟩
       · rw [h1]; exact hpid (h3 hok)
       · rw [h1]; exact onStop_pid s
   | remove j keep faults =>
@@ -140,25 +204,21 @@ theorem stop_remove_leave_nothing_partial (ops : List Op) (op : Op) (i : Nat) (s
   | start _ _ _ => simp [isStopOrRemove] at hop
   | upgrade _ _ _ _ _ _ => simp [isStopOrRemove] at hop
   | refresh => simp [isStopOrRemove] at hop
-  | refreshFull => simp [isStopOrRemove] at hop
+  | refreshFull _ _ => simp [isStopOrRemove] at hop
+  | drestart _ _ _ => simp [isStopOrRemove] at hop
   | restartOutside _ => simp [isStopOrRemove] at hop
   | kill _ => simp [isStopOrRemove] at hop
   | flaky _ _ => simp [isStopOrRemove] at hop
   | saveload => simp [isStopOrRemove] at hop
 
-/-- `refresh` (which every `antctl` command runs first) removes the hypothesis: afterwards no service has an
-unrecorded live process. -/
-theorem refresh_clears_orphans (w : World) (s : Svc) (hs : s ∈ (step w .refresh).reg) :
-    NoOrphan (step w .refresh) s := by
-  simp only [step, exec] at hs ⊢
-  obtain ⟨t, _, rfl⟩ := List.mem_map.mp hs
+/-- A refresh that went through (the partial one every `antctl` command runs first, or a successful full one)
+removes the hypothesis: afterwards no service has an unrecorded live process. -/
+theorem refresh_clears_orphans (w : World) (op : Op) (hop : op.isRefresh = true) (hok : (result w op).failed = false)
+    (s : Svc) (hs : s ∈ (step w op).reg) : NoOrphan (step w op) s := by
+  obtain ⟨ho, t, _, ht⟩ := refresh_step_mem w op hop hok s hs
   intro hnr
-  unfold svcRefresh at hnr ⊢
-  split
-  · rename_i p hp; simp [hp] at hnr
-  · rename_i hl
-    have hnp : NoProc w.os t.number := lookup_none hl
-    split <;> exact hnp
+  rw [ho]
+  exact refreshed_noOrphan ht hnr
 
 /-! ## 3. A removed service stays removed -/
 
@@ -170,13 +230,13 @@ def RemovedStaysRemoved : Prop :=
 /-- K-s-orphan again: the unrecorded process survives the removal (uninstalling does not stop it) and the next
 refresh finds it by its binary path. -/
 def orphanRemoveHistory : List Op :=
-  [.add 1 none none none false 1 [], .start 0 false [false, false, true], .remove 0 true []]
+  [.add 1 none none none false 1 [], .start 0 false [.ok, .ok, .fail], .remove 0 true []]
 
 theorem removed_stays_removed_witness : ¬ RemovedStaysRemoved := by
   intro h
-  obtain ⟨s', h1, h2⟩ := h orphanRemoveHistory .refresh 0 ⟨1, .removed, none, none, none, 30000, 1, none⟩ (by decide) rfl
+  obtain ⟨s', h1, h2⟩ := h orphanRemoveHistory .refresh 0 ⟨1, .removed, none, none, none, 30000, 1, none, none, none⟩ (by decide) rfl
   have : (step (run World.init orphanRemoveHistory) .refresh).reg[0]? =
-      some ⟨1, .running, some 100, none, none, 30000, 1, none⟩ := by decide
+      some ⟨1, .running, some 100, none, none, 30000, 1, none, none, none⟩ := by decide
   rw [this] at h1
   cases h1
   cases h2
@@ -200,7 +260,8 @@ theorem addLoop_reg (k num : Nat) (np mp rp : Option Nat) (metrics : Bool) (ver 
     unfold addLoop
     dsimp only
     have h1 : ∃ new, (addOne num np mp rp metrics ver a).w.reg = a.w.reg ++ new ∧ ∀ t ∈ new, t.status = .added := by
-      rcases addOne_cases num np mp rp metrics ver a with ⟨hr, _⟩ | ⟨new, _, _, hst, _, hr, _, _⟩
+      rcases addOne_cases num np mp rp metrics ver a with ⟨hr, _⟩ | ⟨hr, _⟩ | ⟨new, _, _, hst, _, hr, _, _⟩
+      · exact ⟨[], by simpa using hr, fun _ h => by cases h⟩
       · exact ⟨[], by simpa using hr, fun _ h => by cases h⟩
       · exact ⟨[new], hr, fun t ht => by simp at ht; rw [ht]; exact hst⟩
     split
@@ -232,7 +293,7 @@ theorem addNode_reg (w : World) (fx : Fx) (file : List Svc) (count : Nat) (np mp
         · exact this
         · split <;> exact this
 
-theorem onSvc_noNewRun (w : World) (i : Nat) (faults : List Bool) (f : Svc → OS → Fx → Svc × OS × Fx × Res)
+theorem onSvc_noNewRun (w : World) (i : Nat) (faults : List Fault) (f : Svc → OS → Fx → Svc × OS × Fx × Res)
     (hN : ∀ s os fx, (f s os fx).2.2.2.failed = true → (f s os fx).1.status = .running → s.status = .running)
     (hf : (onSvc w i faults f).2.1.failed = true) (j : Nat) (s' : Svc)
     (hj : (onSvc w i faults f).1.reg[j]? = some s') (hr : s'.status = .running) :
@@ -253,9 +314,11 @@ theorem onSvc_noNewRun (w : World) (i : Nat) (faults : List Bool) (f : Svc → O
       simp only [hij, if_false] at hj
       exact ⟨s', hj, hr⟩
 
-/-- Whatever the state, if an operation fails (returns an error, or `UpgradedButNotStarted`), every entry that is
-recorded Running afterwards was already recorded Running before. -/
-theorem failure_never_marks_running (w : World) (op : Op) (hf : (result w op).failed = true)
+/-- Whatever the state, if an operation other than the full refresh fails (returns an error, or
+`UpgradedButNotStarted`), every entry that is recorded Running afterwards was already recorded Running before.
+(A failing full refresh has refreshed the entries in front of the failing RPC call: see the next theorem.) -/
+theorem failure_never_marks_running (w : World) (op : Op) (hnf : op.isFullRefresh = false)
+    (hf : (result w op).failed = true)
     (j : Nat) (s' : Svc) (hj : (step w op).reg[j]? = some s') (hr : s'.status = .running) :
     ∃ s, w.reg[j]? = some s ∧ s.status = .running := by
   cases op with
@@ -277,14 +340,13 @@ theorem failure_never_marks_running (w : World) (op : Op) (hf : (result w op).fa
   | upgrade i force start ver ct faults =>
     exact onSvc_noNewRun w i faults _ (fun s os fx => svcUpgrade_noNewRun s os fx force start ver ct) hf j s' hj hr
   | refresh => simp [result, exec, Res.ok] at hf
-  | refreshFull =>
-    simp only [step, exec] at hj
-    rcases refreshFull_get w.os w.reg j with ⟨h1, _⟩ | ⟨s, t, h1, h2, h3⟩
-    · rw [h1] at hj; cases hj
-    · rw [h2] at hj; cases hj
-      rcases h3 with rfl | ⟨hl, rfl⟩
-      · exact ⟨_, h1, hr⟩
-      · exact ⟨s, h1, svcRefresh_dead_not_running _ _ hl hr⟩
+  | refreshFull fail faults => simp [Op.isFullRefresh] at hnf
+  | drestart i retain faults =>
+    simp only [step, result] at hf hj
+    rcases exec_drestart_cases w i retain faults with ⟨h1, _⟩ | ⟨k, _, h1⟩
+    · rw [h1] at hj; exact ⟨s', hj, hr⟩
+    · rw [h1] at hf hj
+      exact restartAt_noNewRun w k retain faults hf j s' hj hr
   | restartOutside i =>
     simp only [step, result, exec] at hf hj
     split at hf
@@ -300,7 +362,45 @@ theorem failure_never_marks_running (w : World) (op : Op) (hf : (result w op).fa
     split at hf
     · rename_i h; simp only [h] at hj; exact ⟨s', hj, hr⟩
     · simp [Res.ok] at hf
-  | saveload => simp [result, exec, decode_encode, Res.ok] at hf
+  | saveload => simp [result, exec, Res.ok] at hf
+
+/-- **The clause as worded, for every operation incl. the full refresh**: from any state, if an operation fails and
+an entry is recorded Running afterwards that was not recorded Running before, then it IS running — a live process of
+that service has the recorded pid. (Only a full refresh whose RPC fails at a later service does this: the services in
+front of it were refreshed and found alive.) -/
+theorem failure_marks_running_only_if_it_is (w : World) (op : Op) (hf : (result w op).failed = true)
+    (j : Nat) (s' : Svc) (hj : (step w op).reg[j]? = some s') (hr : s'.status = .running) :
+    (∃ s, w.reg[j]? = some s ∧ s.status = .running) ∨
+    (∃ p ∈ (step w op).os.procs, p.svc = s'.number ∧ s'.pid = some p.pid) := by
+  cases hfr : op.isFullRefresh with
+  | false => exact Or.inl (failure_never_marks_running w op hfr hf j s' hj hr)
+  | true =>
+    cases op with
+    | refreshFull fail faults =>
+      have hg := refreshFull_get w.os w.reg ⟨faults, 0⟩ j
+      have hos : (step w (.refreshFull fail faults)).os = w.os := by
+        simp only [step, exec]; split <;> rfl
+      have hreg : (step w (.refreshFull fail faults)).reg = (refreshFull w.os w.reg ⟨faults, 0⟩).1 := by
+        simp only [step, exec]; split <;> (rename_i h; rw [h])
+      rw [hos]
+      rw [hreg] at hj
+      rcases hg with ⟨h1, _⟩ | ⟨s, t, h1, h2, h3, _⟩
+      · rw [h1] at hj; cases hj
+      · rw [h2] at hj; cases hj
+        rcases h3 with rfl | h3
+        · exact Or.inl ⟨_, h1, hr⟩
+        · exact Or.inr (refreshed_good h3 hr)
+    | add _ _ _ _ _ _ _ => simp [Op.isFullRefresh] at hfr
+    | start _ _ _ => simp [Op.isFullRefresh] at hfr
+    | stop _ _ => simp [Op.isFullRefresh] at hfr
+    | remove _ _ _ => simp [Op.isFullRefresh] at hfr
+    | upgrade _ _ _ _ _ _ => simp [Op.isFullRefresh] at hfr
+    | refresh => simp [Op.isFullRefresh] at hfr
+    | drestart _ _ _ => simp [Op.isFullRefresh] at hfr
+    | restartOutside _ => simp [Op.isFullRefresh] at hfr
+    | kill _ => simp [Op.isFullRefresh] at hfr
+    | flaky _ _ => simp [Op.isFullRefresh] at hfr
+    | saveload => simp [Op.isFullRefresh] at hfr
 
 /-! ## 5. Names and data directories are unique -/
 
@@ -339,7 +439,7 @@ theorem checkRange_refuses (r : Option (Nat × Nat)) (count : Nat) (ports : List
 /-- In any state: if one of the requested node / metrics / RPC ports is recorded by an existing service, `add`
 fails, makes no `ServiceControl` call and changes nothing. -/
 theorem requested_port_refused (w : World) (count : Nat) (np mp rp : Option (Nat × Nat)) (metrics : Bool)
-    (ver : Nat) (faults : List Bool) (p : Nat) (hp : p ∈ requested np ++ requested mp ++ requested rp)
+    (ver : Nat) (faults : List Fault) (p : Nat) (hp : p ∈ requested np ++ requested mp ++ requested rp)
     (hin : p ∈ allPorts w.reg) :
     step w (.add count np mp rp metrics ver faults) = w ∧
     (result w (.add count np mp rp metrics ver faults)).failed = true ∧
@@ -361,26 +461,27 @@ theorem requested_port_refused (w : World) (count : Nat) (np mp rp : Option (Nat
         · obtain ⟨e, he⟩ := checkRange_refuses mp count _ p hp hin; rw [h2] at he; cases he
         · obtain ⟨e, he⟩ := checkRange_refuses rp count _ p hp hin; rw [h3] at he; cases he
 
-/-! ## 7. The saved registry loads back to the same state -/
+/-! ## 7. The saved registry loads back to the same state — NOT a Lean theorem
 
-theorem save_load_identity (w : World) :
-    decode (encode w.reg) = some w.reg ∧ step w .saveload = w ∧ (result w .saveload).failed = false := by
-  refine ⟨decode_encode _, ?_, ?_⟩
-  · simp [step, exec, decode_encode]
-  · simp [result, exec, decode_encode, Res.ok]
-
-/-- ... after every step of any history. -/
-theorem save_load_identity_run (ops : List Op) :
-    decode (encode (run World.init ops).reg) = some (run World.init ops).reg :=
-  decode_encode _
+The model has no serialisation of the registry: `NodeRegistry::save` / `load` are serde-derived JSON (plus the custom
+(de)serialisers of `connected_peers` and `peer_id`), and a round-trip theorem about a codec invented for the model would
+say nothing about them. This clause is established by the harness only (`harness/hmgr/src/bin/lifecycle.rs`), on the
+real code: after EVERY operation the oracle clause `save-load-identity` runs the real `serde_json::to_string` +
+`NodeRegistry::from_json` (the code `save`/`load` use) on the real registry and requires the same value and the same
+bytes again, also with every optional list/string field forced to `Some(empty)` and to `None`; the registry FILE is an
+observable of every output line (`F` dump, `file-matches-memory`), and `reload` / `saveload` continue from what the
+real `load` returns, so a lossy round trip also shows as a correspondence difference. In the model `Op.saveload` is
+the identity and `SOp.reload` continues from the modelled file content. -/
 
 /-! ## 8. The registry file: saved after each install; names stay unique across a reload -/
 
-/-- **`add_node` saves after every completed install**, at every return point and under any fault list: either the
-call recorded and installed nothing (file untouched), or the file it leaves is exactly the in-memory registry and
-every service definition the call created is recorded in that file. `file` is the file's content before the call. -/
+/-- **`add_node` saves after every completed install**, at every return point and under any fault list in which no
+call has its effect and then reports failure: either the call recorded and installed nothing (file untouched), or the
+file it leaves is exactly the in-memory registry and every service definition the call created is recorded in that
+file. `file` is the file's content before the call. (An `install` that writes the definition and then reports failure
+leaves a definition `add_node` cannot know about: `hc` excludes exactly that.) -/
 theorem saved_after_each_install (w : World) (fx : Fx) (file : List Svc) (count : Nat) (np mp rp : Option (Nat × Nat))
-    (metrics : Bool) (ver : Nat) :
+    (metrics : Bool) (ver : Nat) (hc : fx.Clean) :
     let r := addNode w fx file count np mp rp metrics ver
     (r.1.reg = w.reg ∧ r.2.2.2 = file ∧ ∀ n, r.1.os.isInstalled n = w.os.isInstalled n) ∨
     (r.2.2.2 = r.1.reg ∧
@@ -397,7 +498,7 @@ theorem saved_after_each_install (w : World) (fx : Fx) (file : List Svc) (count 
       · have h0 : FileRel ⟨w, fx, [], [], false, file⟩ ⟨w, fx, [], [], false, file⟩ :=
           Or.inl ⟨rfl, rfl, fun _ => rfl⟩
         have h := addLoop_fileRel count (startNumber w.reg) (np.map (·.1)) (mp.map (·.1)) (rp.map (·.1)) metrics ver
-          _ _ h0
+          _ _ hc h0
         have h' : (_ ∧ _ ∧ _) ∨ (_ ∧ _) := h
         split
         · rcases h' with ⟨h1, h2, h3⟩ | ⟨h1, h2⟩
@@ -411,12 +512,12 @@ theorem saved_after_each_install (w : World) (fx : Fx) (file : List Svc) (count 
             · left; exact ⟨h1, h2, h3⟩
             · right; exact ⟨h1, fun n hn => by rw [h1]; exact h2 n hn⟩
 
-/-- Every entry the call recorded in memory is in the file it leaves. -/
+/-- Every entry the call recorded in memory is in the file it leaves (any faults). -/
 theorem recorded_is_saved (w : World) (fx : Fx) (file : List Svc) (count : Nat) (np mp rp : Option (Nat × Nat))
     (metrics : Bool) (ver : Nat) (s : Svc)
     (hs : s ∈ (addNode w fx file count np mp rp metrics ver).1.reg) (hnew : s ∉ w.reg) :
     s ∈ (addNode w fx file count np mp rp metrics ver).2.2.2 := by
-  rcases saved_after_each_install w fx file count np mp rp metrics ver with ⟨h1, _, _⟩ | ⟨h1, _⟩
+  rcases addNode_file0 w fx file count np mp rp metrics ver with ⟨h1, _⟩ | h1
   · rw [h1] at hs; exact absurd hs hnew
   · rw [h1]; exact hs
 
@@ -438,7 +539,7 @@ theorem addNode_numbers (w : World) (fx : Fx) (file : List Svc) (count : Nat) (n
         · exact this
         · split <;> exact this
 
-theorem onSvc_numbers (w : World) (i : Nat) (faults : List Bool) (f : Svc → OS → Fx → Svc × OS × Fx × Res)
+theorem onSvc_numbers (w : World) (i : Nat) (faults : List Fault) (f : Svc → OS → Fx → Svc × OS × Fx × Res)
     (hT : ∀ s os fx, (f s os fx).1.number = s.number) :
     (onSvc w i faults f).1.reg.map (·.number) = w.reg.map (·.number) := by
   cases hget : w.reg[i]? with
@@ -447,26 +548,90 @@ theorem onSvc_numbers (w : World) (i : Nat) (faults : List Bool) (f : Svc → OS
     rw [onSvc_some faults f hget]
     exact map_number_set _ _ _ _ hget (hT s w.os ⟨faults, 0⟩)
 
-/-- Every operation other than `add` leaves the list of recorded service numbers as it is. -/
-theorem exec_numbers (w : World) (op : Op) :
-    (∃ c np mp rp m v f, op = .add c np mp rp m v f) ∨ (exec w op).1.reg.map (·.number) = w.reg.map (·.number) := by
+/-- The daemon's restart leaves the recorded numbers as they are or appends the replacement's number, which is above
+every recorded one. -/
+theorem restartAt_numbers (w : World) (j : Nat) (retain : Bool) (faults : List Fault) :
+    (restartAt w j retain faults).1.reg.map (·.number) = w.reg.map (·.number) ∨
+    (restartAt w j retain faults).1.reg.map (·.number) = w.reg.map (·.number) ++ [restartNumber w.reg] := by
+  unfold restartAt
+  cases hget : w.reg[j]? with
+  | none => left; rfl
+  | some s =>
+    simp only
+    cases retain with
+    | true =>
+      simp only [↓reduceIte]
+      left
+      exact onSvc_numbers w j faults _ (fun s os fx => (svcRestartRetain_trans s os fx).num)
+    | false =>
+      simp only [Bool.false_eq_true, ↓reduceIte]
+      have N1 := (svcStop_trans s w.os ⟨faults, 0⟩).num
+      rcases hstop : svcStop s w.os ⟨faults, 0⟩ with ⟨s1, os1, fx1, r1⟩
+      rw [hstop] at N1
+      simp only at N1 ⊢
+      have hset : (w.reg.set j s1).map (·.number) = w.reg.map (·.number) := map_number_set _ _ _ _ hget N1
+      cases hfail : r1.failed with
+      | true => simp only [↓reduceIte]; left; exact hset
+      | false =>
+        simp only [Bool.false_eq_true, ↓reduceIte]
+        have hc := restartFresh_cases (restartNumber w.reg) s1 os1 fx1
+        rcases hfresh : restartFresh (restartNumber w.reg) s1 os1 fx1 with ⟨new, os2, fx2, r2⟩
+        rw [hfresh] at hc
+        simp only at hc ⊢
+        rcases hc with ⟨hnone, _, _⟩ | ⟨node0, node, hn0, _, _, hsome, T, _, _⟩
+        · subst hnone; left; simpa using hset
+        · subst hsome
+          right
+          simp only [Option.toList_some, List.map_append, List.map_cons, List.map_nil, hset]
+          rw [T.num, hn0]
+
+/-- Every operation other than `add` keeps the recorded service numbers pairwise distinct and only ever appends to
+them (the daemon's restart without retained peer id appends the replacement's number). -/
+theorem exec_numbers (w : World) (op : Op) (hn : (w.reg.map (·.number)).Nodup) :
+    (∃ c np mp rp m v f, op = .add c np mp rp m v f) ∨
+    (((exec w op).1.reg.map (·.number)).Nodup ∧ (w.reg.map (·.number)) <+: ((exec w op).1.reg.map (·.number))) := by
+  have same : ∀ {r : List Svc}, r.map (·.number) = w.reg.map (·.number) →
+      (r.map (·.number)).Nodup ∧ (w.reg.map (·.number)) <+: (r.map (·.number)) :=
+    fun h => by rw [h]; exact ⟨hn, List.prefix_refl _⟩
   cases op with
   | add c np mp rp m v f => left; exact ⟨c, np, mp, rp, m, v, f, rfl⟩
-  | start i ct faults => right; exact onSvc_numbers w i faults _ (fun s os fx => (svcStart_trans s os fx ct).num)
-  | stop i faults => right; exact onSvc_numbers w i faults _ (fun s os fx => (svcStop_trans s os fx).num)
-  | remove i keep faults => right; exact onSvc_numbers w i faults _ (fun s os fx => (svcRemove_trans s os fx keep).num)
+  | start i ct faults => right; exact same (onSvc_numbers w i faults _ (fun s os fx => (svcStart_trans s os fx ct).num))
+  | stop i faults => right; exact same (onSvc_numbers w i faults _ (fun s os fx => (svcStop_trans s os fx).num))
+  | remove i keep faults =>
+    right; exact same (onSvc_numbers w i faults _ (fun s os fx => (svcRemove_trans s os fx keep).num))
   | upgrade i force start ver ct faults =>
-    right; exact onSvc_numbers w i faults _ (fun s os fx => (svcUpgrade_trans s os fx force start ver ct).num)
+    right; exact same (onSvc_numbers w i faults _ (fun s os fx => (svcUpgrade_trans s os fx force start ver ct).num))
   | refresh =>
     right
+    apply same
     simp only [exec, List.map_map]
     congr 1
     funext s; exact svcRefresh_number _ _
-  | refreshFull => right; simp only [exec]; exact refreshFull_numbers _ _
-  | restartOutside i => right; simp only [exec]; split <;> rfl
-  | kill i => right; simp only [exec]; split <;> rfl
-  | flaky i on => right; simp only [exec]; split <;> rfl
-  | saveload => right; simp only [exec, decode_encode]
+  | refreshFull fail faults =>
+    right
+    apply same
+    simp only [exec]
+    split <;> (rename_i h; have := refreshFull_numbers w.os w.reg ⟨faults, 0⟩; rw [h] at this; exact this)
+  | drestart i retain faults =>
+    right
+    rcases exec_drestart_cases w i retain faults with ⟨h1, _⟩ | ⟨j, _, h1⟩
+    · rw [h1]; exact ⟨hn, List.prefix_refl _⟩
+    · rw [h1]
+      rcases restartAt_numbers w j retain faults with h | h
+      · exact same h
+      · rw [h]
+        refine ⟨?_, List.prefix_append _ _⟩
+        rw [List.nodup_append]
+        refine ⟨hn, by simp, ?_⟩
+        intro x hx y hy
+        simp only [List.mem_singleton] at hy
+        obtain ⟨t, ht, rfl⟩ := List.mem_map.mp hx
+        rw [hy]
+        exact Nat.ne_of_lt (fresh_restartNumber w.reg t ht)
+  | restartOutside i => right; apply same; simp only [exec]; split <;> rfl
+  | kill i => right; apply same; simp only [exec]; split <;> rfl
+  | flaky i on => right; apply same; simp only [exec]; split <;> rfl
+  | saveload => right; apply same; simp only [exec]
 
 /-- Recorded numbers are pairwise distinct and the file's numbers are an initial segment of them. -/
 def SNum (s : Sys) : Prop :=
@@ -484,39 +649,35 @@ theorem stepS_snum (s : Sys) (sop : SOp) (h : SNum s) : SNum (stepS s sop) := by
     simp only [stepS, execS]
     exact ⟨hn.sublist hp.sublist, List.prefix_refl _⟩
   | op o =>
-    rcases exec_numbers s.w o with ⟨c, np, mp, rp, m, v, f, rfl⟩ | he
-    · simp only [stepS, execS]
+    by_cases hadd : ∃ c np mp rp m v f, o = .add c np mp rp m v f
+    · obtain ⟨c, np, mp, rp, m, v, f, rfl⟩ := hadd
+      simp only [stepS, execS]
       obtain ⟨g1, g2⟩ := addNode_numbers s.w ⟨f, 0⟩ s.file c np mp rp m v hn
       refine ⟨g1, ?_⟩
       dsimp only
       split
-      · rcases saved_after_each_install s.w ⟨f, 0⟩ s.file c np mp rp m v with ⟨_, h2, _⟩ | ⟨h2, _⟩
+      · rcases addNode_file0 s.w ⟨f, 0⟩ s.file c np mp rp m v with ⟨_, h2⟩ | h2
         · rw [h2]; exact hp.trans g2
         · rw [h2]; exact List.prefix_refl _
       · exact List.prefix_refl _
-    · by_cases hadd : ∃ c np mp rp m v f, o = .add c np mp rp m v f
-      · obtain ⟨c, np, mp, rp, m, v, f, rfl⟩ := hadd
-        simp only [stepS, execS]
-        obtain ⟨g1, g2⟩ := addNode_numbers s.w ⟨f, 0⟩ s.file c np mp rp m v hn
-        refine ⟨g1, ?_⟩
-        dsimp only
-        split
-        · rcases saved_after_each_install s.w ⟨f, 0⟩ s.file c np mp rp m v with ⟨_, h2, _⟩ | ⟨h2, _⟩
-          · rw [h2]; exact hp.trans g2
-          · rw [h2]; exact List.prefix_refl _
-        · exact List.prefix_refl _
-      · have hna : ∀ c np mp rp m v f, o ≠ .add c np mp rp m v f :=
-          fun c np mp rp m v f h => hadd ⟨c, np, mp, rp, m, v, f, h⟩
-        rw [stepS_nonadd s o hna]
-        refine ⟨by show ((exec s.w o).1.reg.map (·.number)).Nodup; rw [he]; exact hn, ?_⟩
-        show (List.map (·.number) (if callerSaves s.w o (exec s.w o).2.1 then (exec s.w o).1.reg else s.file)) <+:
-          (exec s.w o).1.reg.map (·.number)
-        split
-        · exact List.prefix_refl _
-        · rw [he]; exact hp
+    · have hna : ∀ c np mp rp m v f, o ≠ .add c np mp rp m v f :=
+        fun c np mp rp m v f h => hadd ⟨c, np, mp, rp, m, v, f, h⟩
+      have he : ((exec s.w o).1.reg.map (·.number)).Nodup ∧
+          (s.w.reg.map (·.number)) <+: ((exec s.w o).1.reg.map (·.number)) := by
+        rcases exec_numbers s.w o hn with h | h
+        · exact absurd h hadd
+        · exact h
+      rw [stepS_nonadd s o hna]
+      refine ⟨he.1, ?_⟩
+      show (List.map (·.number) (if callerSaves s.w o (exec s.w o).2.1 then (exec s.w o).1.reg else s.file)) <+:
+        (exec s.w o).1.reg.map (·.number)
+      split
+      · exact List.prefix_refl _
+      · exact hp.trans he.2
 
 /-- **Names and data directories stay unique across reloads**: histories may at any point drop the in-memory
-registry and continue from the registry file (`reload`), e.g. after an `add` that returned early. -/
+registry and continue from the registry file (`reload`), e.g. after an `add` that returned early or in front of a
+daemon restart (antctld loads the file per request). -/
 theorem names_dirs_unique_reload (ops : List SOp) :
     ((runS Sys.init ops).w.reg.map (·.number)).Nodup ∧ ((runS Sys.init ops).file.map (·.number)).Nodup := by
   have h : SNum (runS Sys.init ops) := by
@@ -530,7 +691,8 @@ theorem names_dirs_unique_reload (ops : List SOp) :
 /-- Every service definition the OS holds is recorded in the registry file. -/
 def SInst (s : Sys) : Prop := ∀ n, s.w.os.isInstalled n = true → n ∈ s.file.map (·.number)
 
-theorem stepS_sinst (s : Sys) (sop : SOp) (hnum : SNum s) (h : SInst s) : SInst (stepS s sop) := by
+theorem stepS_sinst (s : Sys) (sop : SOp) (hcl : sop.CleanInstall) (hnum : SNum s) (h : SInst s) :
+    SInst (stepS s sop) := by
   obtain ⟨hn, hp⟩ := hnum
   cases sop with
   | reload => simp only [stepS, execS]; exact h
@@ -541,7 +703,7 @@ theorem stepS_sinst (s : Sys) (sop : SOp) (hnum : SNum s) (h : SInst s) : SInst 
       simp only [stepS, execS]
       intro n hinst
       dsimp only at hinst ⊢
-      rcases saved_after_each_install s.w ⟨f, 0⟩ s.file c np mp rp m v with ⟨h1, h2, h3⟩ | ⟨h2, h3⟩
+      rcases saved_after_each_install s.w ⟨f, 0⟩ s.file c np mp rp m v hcl with ⟨h1, h2, h3⟩ | ⟨h2, h3⟩
       · rw [h3 n] at hinst
         have hin := h n hinst
         split
@@ -556,67 +718,154 @@ theorem stepS_sinst (s : Sys) (sop : SOp) (hnum : SNum s) (h : SInst s) : SInst 
         · exact hmem
     · have hna : ∀ c np mp rp m v f, o ≠ .add c np mp rp m v f :=
         fun c np mp rp m v f h => hadd ⟨c, np, mp, rp, m, v, f, h⟩
-      have he : (exec s.w o).1.reg.map (·.number) = s.w.reg.map (·.number) := by
-        rcases exec_numbers s.w o with ⟨c, np, mp, rp, m, v, f, h⟩ | he
-        · exact absurd h (hna c np mp rp m v f)
-        · exact he
+      have he : (s.w.reg.map (·.number)) <+: ((exec s.w o).1.reg.map (·.number)) := by
+        rcases exec_numbers s.w o hn with h | h
+        · exact absurd h hadd
+        · exact h.2
       rw [stepS_nonadd s o hna]
       intro n hinst
-      have hin := h n (exec_instSub s.w o hna n hinst)
       show n ∈ List.map (·.number) (if callerSaves s.w o (exec s.w o).2.1 then (exec s.w o).1.reg else s.file)
-      split
-      · rw [he]; exact hp.subset hin
-      · exact hin
+      -- every definition present afterwards was present before or belongs to an entry recorded AND saved
+      have hkey : s.w.os.isInstalled n = true ∨
+          (callerSaves s.w o (exec s.w o).2.1 = true ∧ n ∈ (exec s.w o).1.reg.map (·.number)) := by
+        by_cases hdr : ∃ i r f, o = .drestart i r f
+        · obtain ⟨i, r, f, rfl⟩ := hdr
+          rcases exec_drestart_cases s.w i r f with ⟨h1, _⟩ | ⟨j, hsome, h1⟩
+          · rw [h1] at hinst; exact Or.inl hinst
+          · rw [h1] at hinst ⊢
+            rcases restartAt_inst s.w j r f hcl n hinst with h4 | h4
+            · exact Or.inl h4
+            · exact Or.inr ⟨by simpa [callerSaves] using hsome, h4⟩
+        · have hnr : ∀ i r f, o ≠ .drestart i r f := fun i r f h => hdr ⟨i, r, f, h⟩
+          exact Or.inl (exec_instSub s.w o hna hnr n hinst)
+      rcases hkey with h4 | ⟨hsave, h4⟩
+      · have hin := h n h4
+        split
+        · exact he.subset (hp.subset hin)
+        · exact hin
+      · rw [if_pos hsave]; exact h4
 
-theorem runS_inv (ops : List SOp) (s : Sys) (h : SNum s ∧ SInst s) : SNum (runS s ops) ∧ SInst (runS s ops) := by
+theorem runS_inv (ops : List SOp) (hcl : ∀ op ∈ ops, op.CleanInstall) (s : Sys) (h : SNum s ∧ SInst s) :
+    SNum (runS s ops) ∧ SInst (runS s ops) := by
   induction ops generalizing s with
   | nil => exact h
-  | cons op r ih => exact ih (stepS s op) (And.intro (stepS_snum s op h.1) (stepS_sinst s op h.1 h.2))
+  | cons op r ih =>
+    exact ih (fun o ho => hcl o (List.mem_cons_of_mem _ ho)) (stepS s op)
+      (And.intro (stepS_snum s op h.1) (stepS_sinst s op (hcl op (List.mem_cons_self ..)) h.1 h.2))
 
 /-- **Every installed service is recorded in the registry file**, after every step of every history (any faults,
-kills, reloads): the next `antctl` invocation, which starts from the file, knows every service definition the OS
-holds — in particular the ones created by an `add` that returned early. -/
-theorem installed_recorded_in_file (ops : List SOp) (n : Nat)
+kills, reloads, daemon restarts) in which no `install` of an `add` / a daemon restart wrote its definition and then
+reported failure: the next `antctl` invocation, which starts from the file, knows every service definition the OS
+holds — in particular the ones created by an `add` that returned early and the replacement service of a daemon restart
+whose first start failed. -/
+theorem installed_recorded_in_file (ops : List SOp) (hcl : ∀ op ∈ ops, op.CleanInstall) (n : Nat)
     (hi : (runS Sys.init ops).w.os.isInstalled n = true) : ∃ t ∈ (runS Sys.init ops).file, t.number = n := by
   have h0 : SNum Sys.init ∧ SInst Sys.init := by
     refine ⟨⟨List.nodup_nil, List.prefix_refl _⟩, ?_⟩
     intro m hm
     simp [Sys.init, World.init, OS.init, OS.isInstalled] at hm
-  obtain ⟨t, ht, htn⟩ := List.mem_map.mp ((runS_inv ops Sys.init h0).2 n hi)
+  obtain ⟨t, ht, htn⟩ := List.mem_map.mp ((runS_inv ops hcl Sys.init h0).2 n hi)
   exact ⟨t, ht, htn⟩
+
+/-- The hypothesis of `installed_recorded_in_file` is needed: an `install` that writes the definition and then reports
+failure leaves a service definition no registry knows about (nothing the code could do about it). -/
+theorem installed_recorded_needs_clean :
+    (runS Sys.init [.op (.add 1 none none none false 1 [.ok, .failAfter])]).w.os.isInstalled 1 = true ∧
+    (runS Sys.init [.op (.add 1 none none none false 1 [.ok, .failAfter])]).file = [] := by decide
+
+/-! ## 9. The daemon's restart (`restart_node_service`, antctld) -/
+
+/-- **The registry the daemon saves is the registry it holds**: `restart_handler` saves whatever the outcome, so after
+a daemon restart (of an existing entry) the file equals the in-memory registry — in particular a replacement service
+whose first start failed is in the file. -/
+theorem daemon_restart_saves (s : Sys) (i : Nat) (retain : Bool) (faults : List Fault) (hi : (s.w.reg[i]?).isSome = true) :
+    (stepS s (.op (.drestart i retain faults))).file = (stepS s (.op (.drestart i retain faults))).w.reg := by
+  rw [stepS_nonadd s _ (fun _ _ _ _ _ _ _ h => by cases h)]
+  simp [callerSaves, hi]
+
+/-- A successful daemon restart leaves the addressed service (retained peer id) recorded Running with a live process of
+the recorded pid, in any state that satisfies the invariants (no refresh is needed in front of it). -/
+theorem daemon_restart_running (ops : List Op) (hk : ∀ op ∈ ops, op.isKill = false) (i : Nat) (retain : Bool)
+    (faults : List Fault) (s : Svc) (hs : s ∈ (step (run World.init ops) (.drestart i retain faults)).reg)
+    (hr : s.status = .running) :
+    ∃ p ∈ (step (run World.init ops) (.drestart i retain faults)).os.procs, p.svc = s.number ∧ s.pid = some p.pid := by
+  have := running_has_process (ops ++ [.drestart i retain faults]) (by
+    intro op hop
+    rcases List.mem_append.mp hop with h | h
+    · exact hk op h
+    · simp only [List.mem_singleton] at h; subst h; rfl) s (by simpa [run, List.foldl_append] using hs) hr
+  simpa [run, List.foldl_append] using this
 
 /-! ## Non-vacuity -/
 
 -- add two services with the first install failing, then add one more: numbers 2 and 3 (the F-s history)
-example : (run World.init [.add 2 none none none false 1 [false, true], .add 1 none none none false 1 []]).reg.map (·.number)
+example : (run World.init [.add 2 none none none false 1 [.ok, .fail], .add 1 none none none false 1 []]).reg.map (·.number)
     = [2, 3] := by decide
--- a started service is recorded Running with the pid of its live process
-example : (run World.init [.add 1 none none none false 1 [], .start 0 false []]).reg.map (fun s => (s.status, s.pid))
-    = [(.running, some 100)] := by decide
-example : (run World.init [.add 1 none none none false 1 [], .start 0 false []]).os.procs = [⟨100, 1, 40100⟩] := by decide
+-- a started service is recorded Running with the pid of its live process, the peer id of its own service, the peers
+-- and the listener port its node RPC reports
+example : (run World.init [.add 1 none none none false 1 [], .start 0 false []]).reg.map
+    (fun s => (s.status, s.pid, s.peer, s.peers, s.lport)) = [(.running, some 100, some 1, some 0, some 40100)] := by decide
+example : (run World.init [.add 1 none none none false 1 [], .start 0 false []]).os.procs = [⟨100, 1, 40100, 30000⟩] := by decide
 -- the hypothesis of the partial theorems holds on ordinary histories: after stop, no process
 example : NoProc (run World.init [.add 1 none none none false 1 [], .start 0 false [], .stop 0 []]).os 1 := by
   have h : (run World.init [.add 1 none none none false 1 [], .start 0 false [], .stop 0 []]).os.procs = [] := by decide
   intro p hp; rw [h] at hp; cases hp
 -- a failing start (node_info RPC) leaves the entry Added
 example : (run World.init orphanHistory).reg.map (·.status) = [.added] := by decide
-example : (result (run World.init [.add 1 none none none false 1 []]) (.start 0 false [false, true])).failed = true := by decide
+example : (result (run World.init [.add 1 none none none false 1 []]) (.start 0 false [.ok, .fail])).failed = true := by decide
 -- a requested port recorded by another service
 example : (8000 : Nat) ∈ allPorts (run World.init [.add 1 (some (8000, 8000)) none none false 1 []]).reg := by decide
 
 -- a running service restarted under a new pid behind the manager's back: stale until the refresh
 example : (run World.init [.add 1 none none none false 1 [], .start 0 false [], .restartOutside 0]).reg.map (·.pid) = [some 100] := by decide
 example : (run World.init [.add 1 none none none false 1 [], .start 0 false [], .restartOutside 0, .refresh]).reg.map (·.pid) = [some 101] := by decide
--- zero connected peers are recorded as `some 0`, not `none`, and survive the serialisation
-example : (run World.init [.add 1 none none none false 1 [], .start 0 false [], .saveload]).reg.map (·.peers) = [some 0] := by decide
+-- ... a SUCCESSFUL full refresh (`antctl status`) records the new pid AND what the node RPC of the new process reports
+example : (run World.init [.add 1 none none none false 1 [], .start 0 false [], .restartOutside 0, .refreshFull false []]).reg.map
+    (fun s => (s.status, s.pid, s.peers, s.lport)) = [(.running, some 101, some 1, none)] := by decide
+example : (result (run World.init [.add 1 none none none false 1 [], .start 0 false [], .restartOutside 0]) (.refreshFull false [])).failed
+    = false := by decide
+-- ... a full refresh whose second RPC call fails leaves the stale pid and reports the failure
+example : (run World.init [.add 1 none none none false 1 [], .start 0 false [], .restartOutside 0, .refreshFull false [.ok, .fail]]).reg.map (·.pid)
+    = [some 100] := by decide
+-- ... a failing full refresh has refreshed the services in front of the failing call: the unrecorded process of
+-- service 1 (K-s-orphan) is newly recorded Running — and it is running (failure_marks_running_only_if_it_is)
+example : (run World.init [.add 2 none none none false 1 [], .start 0 false [.ok, .fail], .start 1 false [],
+    .refreshFull false [.ok, .ok, .fail]]).reg.map (fun s => (s.status, s.pid)) = [(.running, some 100), (.running, some 101)] := by decide
+-- `antctl status --fail`: the refresh goes through, the command fails because a service is not running
+example : (result (run World.init [.add 2 none none none false 1 [], .start 0 false []]) (.refreshFull true [])).text
+    = "err:ServiceNotRunning" := by decide
+-- zero connected peers are recorded as `some 0`, not `none`
+example : (run World.init [.add 1 none none none false 1 [], .start 0 false []]).reg.map (·.peers) = [some 0] := by decide
 -- the registry file: an add that returns early (second port allocation fails) has saved the service it installed;
 -- after a reload the next add continues with number 2
-example : (runS Sys.init [.op (.add 3 none none none false 1 [false, false, true])]).file.map (·.number) = [1] := by decide
-example : (runS Sys.init [.op (.add 3 none none none false 1 [false, false, true]), .reload,
+example : (runS Sys.init [.op (.add 3 none none none false 1 [.ok, .ok, .fail])]).file.map (·.number) = [1] := by decide
+example : (runS Sys.init [.op (.add 3 none none none false 1 [.ok, .ok, .fail]), .reload,
     .op (.add 1 none none none false 1 [])]).w.reg.map (·.number) = [1, 2] := by decide
 -- a failed start is not saved by its caller; a reload then drops nothing that matters
 example : (runS Sys.init [.op (.add 1 none none none false 1 []), .op (.start 0 false []), .reload]).w.reg.map (·.status)
     = [.running] := by decide
+
+-- the daemon's restart with retained peer id: stop, uninstall, reinstall with the listener port pinned, start (new pid)
+example : (run World.init [.add 1 none none none false 1 [], .start 0 false [], .drestart 0 true []]).reg.map
+    (fun s => (s.status, s.pid, s.nodePort)) = [(.running, some 101, some 40100)] := by decide
+example : (run World.init [.add 1 none none none false 1 [], .start 0 false [], .drestart 0 true []]).os.installed
+    = [(1, some 40100, 30000)] := by decide
+-- ... without: the old service is stopped, a replacement is numbered after the highest recorded number — also after a
+-- partially failed add (registry [antnode2]: the replacement is antnode3, not a second antnode2)
+example : (run World.init [.add 2 none none none false 1 [.ok, .fail], .start 0 false [], .drestart 0 false []]).reg.map
+    (fun s => (s.number, s.status)) = [(2, .stopped), (3, .running)] := by decide
+-- ... and is recorded (as Added) even when its first start fails, and saved by the daemon
+example : (runS Sys.init [.op (.add 1 none none none false 1 []), .op (.start 0 false []), .reload,
+    .op (.drestart 0 false [.ok, .ok, .ok, .fail])]).file.map (fun s => (s.number, s.status)) = [(1, .stopped), (2, .added)] := by decide
+-- ... an entry that never recorded a peer id cannot be addressed
+example : (result (run World.init [.add 1 none none none false 1 []]) (.drestart 0 true [])).text = "err:peer-not-found" := by decide
+-- a `stop` that kills the process and then reports failure: the service is recorded as stopped (no stale pid)
+example : (run World.init [.add 1 none none none false 1 [], .start 0 false [], .stop 0 [.failAfter]]).reg.map
+    (fun s => (s.status, s.pid)) = [(.stopped, none)] := by decide
+example : (result (run World.init [.add 1 none none none false 1 [], .start 0 false []]) (.stop 0 [.failAfter])).failed = true := by decide
+example : (run World.init [.add 1 none none none false 1 [], .start 0 false [], .stop 0 [.failAfter]]).os.procs = [] := by decide
+-- a `start` that launches the process and then reports failure leaves it unrecorded (K-s-orphan)
+example : (run World.init [.add 1 none none none false 1 [], .start 0 false [.failAfter]]).os.procs = [⟨100, 1, 40100, 30000⟩] := by decide
 
 end SafeNet.Props.C19
 
@@ -628,14 +877,16 @@ end SafeNet.Props.C19
 #print axioms SafeNet.Props.C19.removed_stays_removed_witness
 #print axioms SafeNet.Props.C19.removed_stays_removed_partial
 #print axioms SafeNet.Props.C19.failure_never_marks_running
+#print axioms SafeNet.Props.C19.failure_marks_running_only_if_it_is
 #print axioms SafeNet.Props.C19.names_dirs_unique
 #print axioms SafeNet.Props.C19.names_dirs_unique_index
 #print axioms SafeNet.Props.C19.requested_port_refused
-#print axioms SafeNet.Props.C19.save_load_identity
-#print axioms SafeNet.Props.C19.save_load_identity_run
 #print axioms SafeNet.Props.C19.saved_after_each_install
 #print axioms SafeNet.Props.C19.recorded_is_saved
 #print axioms SafeNet.Props.C19.names_dirs_unique_reload
 #print axioms SafeNet.Props.C19.installed_recorded_in_file
+#print axioms SafeNet.Props.C19.installed_recorded_needs_clean
 #print axioms SafeNet.Props.C19.refresh_records_os_pid
 #print axioms SafeNet.Props.C19.refresh_records_live
+#print axioms SafeNet.Props.C19.daemon_restart_saves
+#print axioms SafeNet.Props.C19.daemon_restart_running
